@@ -651,6 +651,63 @@ def handleCallAuthResponse (cid req : Nat) (a : CallAns) : M Unit := do
     if c.protocol < vCallRes then sendFrame cid s!"res {req} ok rid={rid} R\{}"
     else handleResourceResult cid req rid
 
+/-- `GetHTTPSubscription`: subscribe, then a separate access request flagged isHttp. -/
+def startHttpGet (cid h : Nat) (rid : String) : M Unit := do
+  match ← connSubscribe cid rid true none with
+  | .error e => httpRespondErr cid h e
+  | .ok uid =>
+    let c ← getConn cid
+    let s ← getSub cid uid
+    sendRequest s.name s!"access.{s.name}" (reqPayloadH cid c.token s.query "" true)
+      (fun eid => .httpAccess eid ⟨cid, uid⟩ h)
+
+/-- `CallHTTPResource`: a subscription object that is not registered, one access request flagged isHttp. -/
+def startHttpCall (cid h : Nat) (rid action params : String) : M Unit := do
+  let uid ← newSubObj cid rid none
+  let c ← getConn cid
+  let s ← getSub cid uid
+  sendRequest s.name s!"access.{s.name}" (reqPayloadH cid c.token s.query "" true)
+    (fun eid => .httpCallAccess eid ⟨cid, uid⟩ h action params)
+
+/-- A mapped method travels as `PUT:<action>`. -/
+def mappedAction (action : String) : Bool × String :=
+  if action.startsWith "PUT:" then (true, (action.drop 4).toString) else (false, action)
+
+/-- The write callback of `temporaryConn` for a call: meta (access meta merged with the call's),
+    error, href, content — in that order of priority. For PUT/DELETE/PATCH mappings
+    `system.methodNotFound` becomes `system.methodNotAllowed`. -/
+def httpCallAnswer (cid h : Nat) (ams cms : Option Int) (a : CallAns) (mapped : Bool) : M Unit := do
+    -- the write callback of temporaryConn: meta (access meta merged with the call's), error,
+    -- href, content — in that order of priority
+    let ms := match cms with
+      | some st => some st
+      | none => ams
+    let direct := match ms with
+      | some st => 300 ≤ st && st < 600
+      | none => false
+    if direct then
+      let st := ms.getD 0
+      if st < 400 then
+        match a with
+        | .resource rid => emit s!"H h{h} status={st} body=- loc={Enc.ridToPath rid "/api/"}"
+        | _ => emit s!"H h{h} status={st} body=-"
+      else
+        let code := match a with
+          | .err e => e
+          | _ => statusError st
+        emit s!"H h{h} status={st} body=err:{code}"
+      disposeConn cid
+    else
+      match a with
+      | .err e => httpRespondErr cid h (if mapped && e == "system.methodNotFound" then "system.methodNotAllowed" else e)
+      | .resource rid =>
+        emit s!"H h{h} status=200 body=- loc={Enc.ridToPath rid "/api/"}"
+        disposeConn cid
+      | .result p =>
+        if p == "null" then emit s!"H h{h} status=204 body=-"
+        else emit s!"H h{h} status=200 body={p}"
+        disposeConn cid
+
 /-- One queue item of a connection. -/
 def runKItem (cid : Nat) (it : KItem) : M Unit := do
   match it with
@@ -751,52 +808,42 @@ def runKItem (cid : Nat) (it : KItem) : M Unit := do
         | .result _ => replyErr cid req "system.internalError"
         | .resource rid => handleResourceResult cid req rid
       else handleCallAuthResponse cid req a
-    | .httpCall _ h ams cms =>
-      -- the write callback of temporaryConn: meta (access meta merged with the call's), error,
-      -- href, content — in that order of priority
-      let ms := match cms with
-        | some st => some st
-        | none => ams
-      let direct := match ms with
-        | some st => 300 ≤ st && st < 600
-        | none => false
-      if direct then
-        let st := ms.getD 0
-        if st < 400 then
-          match a with
-          | .resource rid => emit s!"H h{h} status={st} body=- loc={Enc.ridToPath rid "/api/"}"
-          | _ => emit s!"H h{h} status={st} body=-"
-        else
-          let code := match a with
-            | .err e => e
-            | _ => statusError st
-          emit s!"H h{h} status={st} body=err:{code}"
-        disposeConn cid
-      else
-        match a with
-        | .err e => httpRespondErr cid h e
-        | .resource rid =>
-          emit s!"H h{h} status=200 body=- loc={Enc.ridToPath rid "/api/"}"
-          disposeConn cid
-        | .result p =>
-          if p == "null" then emit s!"H h{h} status=204 body=-"
-          else emit s!"H h{h} status=200 body={p}"
-          disposeConn cid
+    | .httpCall _ h ams cms => httpCallAnswer cid h ams cms a false
+    | .httpMapped _ h ams cms => httpCallAnswer cid h ams cms a true
     | .access _ => pure ()
   | .tokenEvent token tid =>
     let c ← getConn cid
     setConn { c with tid := tid, token := token, hasToken := true }
     if c.hasToken then
       for (_, uid) in (← orderedList (sortKV c.subs) false) do reaccess cid uid none
-  | .httpGet h rid =>
-    -- GetHTTPSubscription: subscribe, then a separate access request flagged isHttp
-    match ← connSubscribe cid rid true none with
-    | .error e => httpRespondErr cid h e
-    | .ok uid =>
-      let c ← getConn cid
-      let s ← getSub cid uid
-      sendRequest s.name s!"access.{s.name}" (reqPayloadH cid c.token s.query "" true)
-        (fun eid => .httpAccess eid ⟨cid, uid⟩ h)
+  | .httpGet h rid => startHttpGet cid h rid
+  | .httpAuth h next =>
+    -- temporaryConn with Config.HeaderAuth: the auth request comes first
+    let c ← getConn cid
+    sendRequest "hauth.svc" "auth.hauth.svc.login" (reqPayloadH cid c.token "" "" true)
+      (fun eid => .httpAuth eid cid h next)
+  | .httpAuthAnswer h a ms next =>
+    let direct := match ms with
+      | some st => 300 ≤ st && st < 600
+      | none => false
+    if direct then
+      -- a direct status of the auth answer ends the request: nothing else is asked
+      let st := ms.getD 0
+      if st < 400 then
+        match a with
+        | .resource rid => emit s!"H h{h} status={st} body=- loc={Enc.ridToPath rid "/api/"}"
+        | _ => emit s!"H h{h} status={st} body=-"
+      else
+        let code := match a with
+          | .err e => e
+          | _ => statusError st
+        emit s!"H h{h} status={st} body=err:{code}"
+      disposeConn cid
+    else
+      -- the auth result and error are otherwise ignored
+      match next with
+      | .get rid => startHttpGet cid h rid
+      | .call rid action params => startHttpCall cid h rid action params
   | .httpAccess h uid a ms =>
     let direct := match ms with
       | some st => 300 ≤ st && st < 600
@@ -814,13 +861,7 @@ def runKItem (cid : Nat) (it : KItem) : M Unit := do
       match a.canGet with
       | some e => httpRespondErr cid h e
       | none => onReady cid uid (.httpGet h uid ms)
-  | .httpCall h rid action params =>
-    -- CallHTTPResource: a subscription object that is not registered, one access request flagged isHttp
-    let uid ← newSubObj cid rid none
-    let c ← getConn cid
-    let s ← getSub cid uid
-    sendRequest s.name s!"access.{s.name}" (reqPayloadH cid c.token s.query "" true)
-      (fun eid => .httpCallAccess eid ⟨cid, uid⟩ h action params)
+  | .httpCall h rid action params => startHttpCall cid h rid action params
   | .httpCallAccess h uid action params a ms =>
     let direct := match ms with
       | some st => 300 ≤ st && st < 600
@@ -835,13 +876,14 @@ def runKItem (cid : Nat) (it : KItem) : M Unit := do
         emit s!"H h{h} status={st} body=err:{code}"
       disposeConn cid
     else
-      match a.canCallE action with
+      let (mapped, act) := mappedAction action
+      match a.canCallE act with
       | some e => httpRespondErr cid h e
       | none =>
         let c ← getConn cid
         let s ← getSub cid uid
-        sendRequest s.name s!"call.{s.name}.{action}" (reqPayloadH cid c.token s.query params true)
-          (fun eid => .call eid (.httpCall cid h ms none))
+        sendRequest s.name s!"call.{s.name}.{act}" (reqPayloadH cid c.token s.query params true)
+          (fun eid => .call eid (if mapped then .httpMapped cid h ms none else .httpCall cid h ms none))
   | .tokenReset tids subject =>
     let c ← getConn cid
     if c.tid == "" || !tids.contains c.tid then return
